@@ -145,10 +145,14 @@ pub mod libc_dev {
     pub open spec fn sp_major(dev: u64) -> u32 { (((dev & 0x0000_0000_000f_ff00u64) >> 8) | ((dev & 0xffff_f000_0000_0000u64) >> 32)) as u32 }
     pub open spec fn sp_minor(dev: u64) -> u32 { ((dev & 0x0000_0000_0000_00ffu64) | ((dev & 0x0000_0fff_fff0_0000u64) >> 12)) as u32 }
     pub fn major(dev: u64) -> (r: u32) ensures r == sp_major(dev) {
-        let mut major: u64 = 0; major = major | ((dev & 0x0000_0000_000f_ff00u64) >> 8); major = major | ((dev & 0xffff_f000_0000_0000u64) >> 32); major as u32
+        let mut major: u64 = 0; major = major | ((dev & 0x0000_0000_000f_ff00u64) >> 8); major = major | ((dev & 0xffff_f000_0000_0000u64) >> 32);
+        proof { let a = (dev & 0x0000_0000_000f_ff00u64) >> 8; let b = (dev & 0xffff_f000_0000_0000u64) >> 32; assert(((0u64 | a) | b) == (a | b)) by (bit_vector); }
+        major as u32
     }
     pub fn minor(dev: u64) -> (r: u32) ensures r == sp_minor(dev) {
-        let mut minor: u64 = 0; minor = minor | ((dev & 0x0000_0000_0000_00ffu64) >> 0); minor = minor | ((dev & 0x0000_0fff_fff0_0000u64) >> 12); minor as u32
+        let mut minor: u64 = 0; minor = minor | ((dev & 0x0000_0000_0000_00ffu64) >> 0); minor = minor | ((dev & 0x0000_0fff_fff0_0000u64) >> 12);
+        proof { let a = dev & 0x0000_0000_0000_00ffu64; let b = (dev & 0x0000_0fff_fff0_0000u64) >> 12; assert(((0u64 | (a >> 0)) | b) == (a | b)) by (bit_vector); }
+        minor as u32
     }
     pub fn makedev(major: u32, minor: u32) -> (r: u64) ensures major == 0 && minor == 0 ==> r == 0 {
         let major = major as u64; let minor = minor as u64; let mut dev: u64 = 0;
@@ -292,3 +296,84 @@ def byte_literals(root, file, scope, name, prefix):
         defs.append("#[verifier::external_body] pub fn %s() -> (r: &'static [u8]) ensures r@ == seq![%s] { b\"%s\" }" % (fname, ', '.join('%du8' % b for b in bs), lit))
         subs.append((re.escape(m.group(0)), fname + '()', 'R11 byte-string literal %s -> constant function with its bytes %r as ensures' % (m.group(0), list(bs))))
     return Raw('\n'.join(defs)), subs
+
+
+# ----------------------------------------------------------------------------------------------------------------------
+# collections the overlay code iterates BY VALUE / mutates through get_mut: std HashMap<String, V>, vec::IntoIter, hash_map::IntoIter.
+# vstd has no specification for these; the models below state the std meaning (a map keyed by the string's characters; an owning iterator
+# yields every element exactly once - a Vec in index order, a HashMap in SOME order).  Used with rule R28 (vx/ovlrules.py).
+COLL = r'''
+#[verifier::external_body] #[verifier::accept_recursive_types(K)] #[verifier::accept_recursive_types(V)]
+pub struct HashMap<K, V> { _p: PhantomData<(K, V)> }
+impl<V> HashMap<String, V> {
+    pub uninterp spec fn view(&self) -> Map<Seq<char>, V>;
+    #[verifier::external_body] pub fn new() -> (r: Self) ensures r@ == Map::<Seq<char>, V>::empty() { unimplemented!() }
+    #[verifier::external_body] pub fn insert(&mut self, k: String, v: V) -> (r: Option<V>) ensures final(self)@ == old(self)@.insert(k@, v) { unimplemented!() }
+    #[verifier::external_body] pub fn get_mut(&mut self, k: &String) -> (r: Option<&mut V>)
+        ensures r is Some <==> old(self)@.contains_key(k@),
+            r is Some ==> *(r->Some_0) == old(self)@[k@] && final(self)@ == old(self)@.insert(k@, *final(r->Some_0)),
+            r is None ==> final(self)@ == old(self)@,
+    { unimplemented!() }
+}
+#[verifier::external_body] #[verifier::accept_recursive_types(T)] pub struct VecIntoIter<T> { _p: PhantomData<T> }
+impl<T> VecIntoIter<T> {
+    pub uninterp spec fn rem(&self) -> Seq<T>;
+    #[verifier::external_body] pub fn next(&mut self) -> (r: Option<T>)
+        ensures old(self).rem().len() == 0 ==> r is None && final(self).rem() == old(self).rem(),
+            old(self).rem().len() > 0 ==> r == Some(old(self).rem()[0]) && final(self).rem() == old(self).rem().skip(1),
+    { unimplemented!() }
+}
+#[verifier::external_body] pub fn vec_into_iter<T>(v: Vec<T>) -> (r: VecIntoIter<T>) ensures r.rem() == v@ { unimplemented!() }
+#[verifier::external_body] #[verifier::accept_recursive_types(V)] pub struct MapIntoIter<V> { _p: PhantomData<V> }
+impl<V> MapIntoIter<V> {
+    pub uninterp spec fn rem(&self) -> Seq<(String, V)>;
+    #[verifier::external_body] pub fn next(&mut self) -> (r: Option<(String, V)>)
+        ensures old(self).rem().len() == 0 ==> r is None && final(self).rem() == old(self).rem(),
+            old(self).rem().len() > 0 ==> r == Some(old(self).rem()[0]) && final(self).rem() == old(self).rem().skip(1),
+    { unimplemented!() }
+}
+// `s` lists the map: every entry once, nothing else, in some order
+pub open spec fn map_listing<V>(m: Map<Seq<char>, V>, s: Seq<(String, V)>) -> bool {
+    &&& forall|i: int| 0 <= i < s.len() ==> m.contains_key(#[trigger] s[i].0@) && m[s[i].0@] == s[i].1
+    &&& forall|i: int, j: int| 0 <= i < s.len() && 0 <= j < s.len() && i != j ==> (#[trigger] s[i]).0@ != (#[trigger] s[j]).0@
+    &&& forall|k: Seq<char>| m.contains_key(k) ==> exists|i: int| 0 <= i < s.len() && (#[trigger] s[i]).0@ == k
+}
+#[verifier::external_body] pub fn map_into_iter<V>(m: HashMap<String, V>) -> (r: MapIntoIter<V>) ensures map_listing(m@, r.rem()) { unimplemented!() }
+'''
+
+# ---- RealInode: struct copied from /repo; the predicates that say what a RealInode's flags mean
+REAL_SPEC = r'''
+impl RealInode {
+    // C10: a RealInode that claims to live in the upper layer really points at the upper layer object
+    pub open spec fn wf(&self) -> bool { self.in_upper_layer ==> (*self.layer).is_upper() }
+    // the attributes the merge rules look at: the cached stat, else what getattr of the layer object says (RealInode::stat64)
+    pub open spec fn sp_stat(&self, ctx: Context) -> Result<stat64> {
+        match self.stat { Some(v) => Ok(v), None => if self.inode == 0 { Err(arbitrary()) } else { match (*self.layer).s_getattr(ctx, self.inode, None) { Ok(p) => Ok(p.0), Err(e) => Err(e) } } }
+    }
+}
+// `c` is the child `name` of directory `p` in p's layer: same layer, flags as the layer's predicates say (whiteout only for non-directories,
+// opaque only for directories), attributes as looked up
+pub open spec fn sp_child(p: RealInode, ctx: Context, name: Seq<char>, c: RealInode) -> bool {
+    let l = (*p.layer).s_lookup(ctx, p.inode, str_bytes(name));
+    &&& l is Ok && l->Ok_0.inode != 0
+    &&& c.layer == p.layer && c.in_upper_layer == p.in_upper_layer && c.inode == l->Ok_0.inode && c.stat == Some(l->Ok_0.attr)
+    &&& (sp_is_dir(l->Ok_0.attr) ==> !c.whiteout && (c.opaque <==> opaque_marked(&*p.layer, ctx, c.inode)))
+    &&& (!sp_is_dir(l->Ok_0.attr) ==> !c.opaque && (c.whiteout <==> whiteout_marked(&*p.layer, ctx, c.inode)))
+}
+pub open spec fn sp_present(l: Result<Entry>) -> bool { l is Ok && l->Ok_0.inode != 0 }
+// the child descriptor spelled out (sp_child determines every field), and the listing of a layer's directory: the listed names that exist
+pub open spec fn sp_child_val(p: RealInode, ctx: Context, name: Seq<char>) -> RealInode {
+    let e = (*p.layer).s_lookup(ctx, p.inode, str_bytes(name))->Ok_0;
+    RealInode { layer: p.layer, in_upper_layer: p.in_upper_layer, inode: e.inode, stat: Some(e.attr),
+        whiteout: !sp_is_dir(e.attr) && whiteout_marked(&*p.layer, ctx, e.inode), opaque: sp_is_dir(e.attr) && opaque_marked(&*p.layer, ctx, e.inode) }
+}
+pub open spec fn sp_listing(p: RealInode, ctx: Context) -> Map<Seq<char>, RealInode> {
+    Map::new(s_dirnames(&*p.layer, ctx, p.inode).filter(|n: Seq<char>| sp_present((*p.layer).s_lookup(ctx, p.inode, str_bytes(n)))), |n: Seq<char>| sp_child_val(p, ctx, n))
+}
+// the names a layer lists in a directory (the paging loop over Layer::readdir is not extracted: closure capturing &mut passed as &mut dyn FnMut)
+pub uninterp spec fn s_dirnames(l: &LayerObj, ctx: Context, inode: u64) -> Set<Seq<char>>;
+#[verifier::external_body]
+pub fn vx_list_names(l: &Arc<LayerObj>, ctx: &Context, inode: u64, handle: u64) -> (r: Result<Vec<String>>)
+    ensures r is Ok ==> (forall|n: Seq<char>| s_dirnames(&**l, *ctx, inode).contains(n) <==> exists|i: int| 0 <= i < r->Ok_0@.len() && (#[trigger] r->Ok_0@[i])@ == n)
+{ unimplemented!() }
+'''
